@@ -234,6 +234,12 @@ def probe_dump(p, rng=None, nrows=2):
             if p.get("exact"):  # shortest round-trip repr: the token IS the double
                 slack = (abs(_tok_fraction(x)) + abs(_tok_fraction(y))) * Fraction(1, 2 ** 52)
             rows.append((a, b, slack, f"[{k}] {x}->{y}"))
+        # the writer converts *from* the object: writing the same object again (attribute delta 0) prints the same
+        # numbers — a writer that rescales the caller's arrays in place changes every later output by a unit factor
+        t2 = [m.group(0) for m in NUM_RE.finditer(_dump_text(p["iofmt"], obj1, name))]
+        moved = [(x, y) for x, y in zip(t1, t2) if x != y] if len(t1) == len(t2) else [(t1[0], "0")]
+        x, y = moved[0] if moved else (diff[0][1], diff[0][1])
+        rows.append((Fraction(0), _tok_fraction(y) - _tok_fraction(x), _tok_quantum(x) / 2, f"[{k}] second write {x}->{y}"))
     return rows
 
 
@@ -295,6 +301,15 @@ def _chgcar_lefthanded():
     lines = (DATA / "CHGCAR.oxygen").read_text().splitlines(keepends=True)
     lines[2], lines[3] = lines[3], lines[2]
     return "".join(lines)
+
+
+def _gamess_single_block():
+    """PCGamess_PUNCH.dat as a run with one geometry would leave it: everything before the second
+    `COORDINATES OF SYMMETRY UNIQUE ATOMS` block, then the trailing `ATOMIC MASSES` part."""
+    lines = (DATA / "PCGamess_PUNCH.dat").read_text().splitlines(keepends=True)
+    heads = [i for i, l in enumerate(lines) if l.startswith(" COORDINATES OF SYMMETRY UNIQUE ATOMS")]
+    tail = next(i for i, l in enumerate(lines) if l.startswith("ATOMIC MASSES"))
+    return "".join(lines[: heads[1]] + lines[tail:]) if len(heads) > 1 else "".join(lines)
 
 
 def _water():
@@ -441,6 +456,8 @@ def load_probes():
     add("json", "atcoords", "json_qcschema", g_coords, text=_json_text, name="p.json", after=(r'"geometry"', 10))
     add("json", "atmasses", "json_qcschema", g_mass, text=_json_text, name="p.json", after=(r'"masses"', 4))
     add("gamess", "atcoords", "gamess", g_coords, file="PCGamess_PUNCH.dat", after=(r"^ COORDINATES OF SYMMETRY UNIQUE ATOMS \(ANGS\)", 4), which=-1)
+    add("gamess-single-block", "atcoords", "gamess", g_coords, text=_gamess_single_block, name="single.dat",
+        after=(r"^ COORDINATES OF SYMMETRY UNIQUE ATOMS \(ANGS\)", 4))
     add("gamess", "energy", "gamess", g_energy, file="PCGamess_PUNCH.dat", after=(r"^ \$GRAD", 1), which=-1)
     add("gamess", "atgradient", "gamess", g_grad, file="PCGamess_PUNCH.dat", after=(r"^E=", 3), which=-1)
     add("gamess", "atmasses", "gamess", g_mass, file="PCGamess_PUNCH.dat", after=(r"^ATOMIC MASSES", 2))
@@ -508,7 +525,7 @@ def run_probes(rng=None, nrows_load=3, nrows_dump=2, strict=True):
         except Exception as exc:  # noqa: BLE001
             r = []
             problems.append(f"dump probe {p['fmt']}/{p['qty']}: {type(exc).__name__}: {exc}")
-        rows += [(p["fmt"], p["qty"], "dump", *x) for x in r]
+        rows += [(p["fmt"], p["qty"], "redump" if "second write" in x[3] else "dump", *x) for x in r]
     if _TMP:
         shutil.rmtree(_TMP, ignore_errors=True)
     if strict and problems:
@@ -584,7 +601,7 @@ def correspond(ctx):
     reqs, impl, cls = [], [], []
     for fmt, qty, d, a, b, slack, note in rows:
         reqs.append(f"unitrow {fmt} {qty} {d} {_enc(a)} {_enc(b)} {_enc(slack)}")
-        impl.append("bad" if (fmt, qty) in KNOWN else "ok")
+        impl.append("bad" if (fmt, qty) in KNOWN and d != "redump" else "ok")
         cls.append(f"{fmt}/{qty}/{d}")
     ctx.corr("unitrow", reqs, impl, None, cls)
     ctx.extra_cov["probe_problems"] = problems[:10]
@@ -596,6 +613,8 @@ def _row_ok_py(spec, units, fmt, qty, d, a, b, slack):
     if u is None:
         return None
     c = units[u]
+    if d == "redump":
+        return a == 0 and abs(b) <= slack
     if d == "load":
         return abs(b - a * c) <= Fraction(1, 10 ** 8) * abs(a * c) + slack
     return abs(b * c - a) <= Fraction(1, 10 ** 8) * abs(a) + slack * abs(c)
@@ -701,6 +720,11 @@ def search(ctx):
                   sample={"fmt": fmt, "qty": qty, "dir": d, "factor": float(b / a) if a else None})
         if ok is None:
             ctx.fail(f"unit:{fmt}:{qty}", f"probe row {fmt}/{qty} has no line in the spec table", {"kind": "row", "fmt": fmt, "qty": qty, "dir": d})
+        elif not ok and d == "redump":
+            ctx.fail(f"unit:{fmt}:{qty}:second-write",
+                     f"{fmt}: writing the same object a second time prints {qty} changed by {float(b):.9g} file units "
+                     f"({note}): the writer rescaled the caller's data instead of converting a copy",
+                     {"kind": "row", "fmt": fmt, "qty": qty, "dir": d, "a": _enc(a), "b": _enc(b), "slack": _enc(slack), "note": note})
         elif not ok:
             un = spec[(fmt, qty)]
             ctx.fail(f"unit:{fmt}:{qty}",
